@@ -3,7 +3,8 @@
    (every legal one) and every payload length and threshold the translated Go
    arithmetic and Model/Payload.v agree. *)
 From Coq Require Import ZArith Lia Bool.
-From SQ Require Import Model.Base Model.Payload Gen.Arith.
+From Coq Require Import List.
+From SQ Require Import Model.Base Model.Payload Model.Varint Gen.Arith Proofs.BaseP.
 Open Scope Z_scope.
 
 Lemma quot_div_nonneg a b : 0 <= a -> 0 < b -> Z.quot a b = a / b.
@@ -23,4 +24,86 @@ Theorem go_index_max_local u : 12 <= u ->
 Proof.
   intros Hu. unfold go_max_local_parseIndexLeaf, go_max_local_parseIndexInterior, index_max_local.
   rewrite (quot_div_nonneg ((u - 12) * 64) 255) by lia. split; reflexivity.
+Qed.
+
+(* db/bits.go readTwos24 / readTwos48 as translated (shifts, | and the sign test by &) are the
+   model's two's complement readers on every 3 / 6 byte string *)
+Lemma lor_shiftl_add a b k : 0 <= k -> 0 <= a -> 0 <= b < 2 ^ k -> Z.lor (Z.shiftl a k) b = a * 2 ^ k + b.
+Proof.
+  intros Hk Ha Hb. rewrite <- Z.shiftl_mul_pow2 by exact Hk.
+  assert (H0 : Z.land (Z.shiftl a k) b = 0); [|rewrite Z.add_nocarry_lxor by exact H0; symmetry; apply Z.lxor_lor; exact H0]. apply Z.bits_inj'. intros n Hn.
+  rewrite Z.land_spec, Z.bits_0.
+  destruct (Z.ltb_spec n k) as [Hlt|Hge].
+  - rewrite Z.shiftl_spec_low by exact Hlt. reflexivity.
+  - destruct (Z.eq_dec b 0) as [->|Hnz]; [rewrite Z.bits_0; apply andb_false_r|].
+    rewrite (Z.bits_above_log2 b n); [apply andb_false_r|lia|].
+    apply Z.log2_lt_pow2; [lia|]. apply Z.lt_le_trans with (2 ^ k); [lia|]. apply Z.pow_le_mono_r; lia.
+Qed.
+
+Lemma land_pow2_test n k : 0 <= k -> 0 <= n < 2 ^ (k + 1) -> (Z.land n (Z.shiftl 1 k) =? 0) = (n <? 2 ^ k).
+Proof.
+  intros Hk Hn. rewrite Z.shiftl_1_l.
+  assert (Hp : 2 ^ (k + 1) = 2 * 2 ^ k) by (rewrite Z.pow_add_r by lia; lia).
+  assert (Hpos : 0 < 2 ^ k) by (apply Z.pow_pos_nonneg; lia).
+  destruct (Z.ltb_spec n (2 ^ k)) as [Hlt|Hge].
+  - apply Z.eqb_eq. apply Z.bits_inj'. intros m Hm. rewrite Z.land_spec, Z.bits_0.
+    destruct (Z.eq_dec m k) as [->|Hne].
+    + destruct (Z.eq_dec n 0) as [->|Hnz]; [rewrite Z.bits_0; reflexivity|].
+      rewrite (Z.bits_above_log2 n k); [reflexivity|lia|]. apply Z.log2_lt_pow2; lia.
+    + rewrite Z.pow2_bits_false by lia. apply andb_false_r.
+  - apply Z.eqb_neq. intro H0.
+    assert (Hb : Z.testbit (Z.land n (2 ^ k)) k = true).
+    { rewrite Z.land_spec, Z.pow2_bits_true by lia. rewrite andb_true_r.
+      apply Z.testbit_true; [lia|]. replace n with ((n - 2 ^ k) + 1 * 2 ^ k) by lia.
+      rewrite Z.div_add by lia. rewrite (Z.div_small (n - 2 ^ k)) by lia. reflexivity. }
+    rewrite H0, Z.bits_0 in Hb. discriminate.
+Qed.
+
+
+
+Lemma lor_mul_add a b k : 0 <= k -> 0 <= a -> 0 <= b < 2 ^ k -> Z.lor (a * 2 ^ k) b = a * 2 ^ k + b.
+Proof. intros. rewrite <- Z.shiftl_mul_pow2 by assumption. rewrite lor_shiftl_add by assumption. rewrite Z.shiftl_mul_pow2 by assumption. reflexivity. Qed.
+
+Theorem go_readTwos24_spec b0 b1 b2 : go_readTwos24 (b2z b0) (b2z b1) (b2z b2) = read_twos24 [b0; b1; b2].
+Proof.
+  pose proof (b2z_range b0) as H0. pose proof (b2z_range b1) as H1. pose proof (b2z_range b2) as H2.
+  unfold go_readTwos24, read_twos24, twos, be. cbn [firstn be_acc].
+  set (x0 := b2z b0) in *. set (x1 := b2z b1) in *. set (x2 := b2z b2) in *.
+  rewrite !Z.shiftl_mul_pow2 by lia.
+  rewrite (lor_mul_add x0 (x1 * 2 ^ 8) 16) by lia.
+  replace (x0 * 2 ^ 16 + x1 * 2 ^ 8) with ((x0 * 2 ^ 8 + x1) * 2 ^ 8) by lia.
+  rewrite (lor_mul_add (x0 * 2 ^ 8 + x1) x2 8) by lia.
+  replace ((x0 * 2 ^ 8 + x1) * 2 ^ 8 + x2) with (((0 * 256 + x0) * 256 + x1) * 256 + x2) by lia.
+  set (n := ((0 * 256 + x0) * 256 + x1) * 256 + x2).
+  assert (Hn : 0 <= n < 2 ^ 24) by (subst n; lia).
+  rewrite <- (Z.shiftl_mul_pow2 1 23) by lia.
+  rewrite (land_pow2_test n 23) by (change (23 + 1) with 24; lia).
+  change (24 - 1) with 23. destruct (n <? 2 ^ 23); reflexivity.
+Qed.
+
+Theorem go_readTwos48_spec b0 b1 b2 b3 b4 b5 :
+  go_readTwos48 (b2z b0) (b2z b1) (b2z b2) (b2z b3) (b2z b4) (b2z b5) = read_twos48 [b0; b1; b2; b3; b4; b5].
+Proof.
+  pose proof (b2z_range b0) as H0. pose proof (b2z_range b1) as H1. pose proof (b2z_range b2) as H2.
+  pose proof (b2z_range b3) as H3. pose proof (b2z_range b4) as H4. pose proof (b2z_range b5) as H5.
+  unfold go_readTwos48, read_twos48, twos, be. cbn [firstn be_acc].
+  set (x0 := b2z b0) in *. set (x1 := b2z b1) in *. set (x2 := b2z b2) in *.
+  set (x3 := b2z b3) in *. set (x4 := b2z b4) in *. set (x5 := b2z b5) in *.
+  rewrite !Z.shiftl_mul_pow2 by lia.
+  rewrite (lor_mul_add x0 (x1 * 2 ^ 32) 40) by lia.
+  replace (x0 * 2 ^ 40 + x1 * 2 ^ 32) with ((x0 * 2 ^ 8 + x1) * 2 ^ 32) by lia.
+  rewrite (lor_mul_add (x0 * 2 ^ 8 + x1) (x2 * 2 ^ 24) 32) by lia.
+  replace ((x0 * 2 ^ 8 + x1) * 2 ^ 32 + x2 * 2 ^ 24) with (((x0 * 2 ^ 8 + x1) * 2 ^ 8 + x2) * 2 ^ 24) by lia.
+  rewrite (lor_mul_add ((x0 * 2 ^ 8 + x1) * 2 ^ 8 + x2) (x3 * 2 ^ 16) 24) by lia.
+  replace (((x0 * 2 ^ 8 + x1) * 2 ^ 8 + x2) * 2 ^ 24 + x3 * 2 ^ 16) with ((((x0 * 2 ^ 8 + x1) * 2 ^ 8 + x2) * 2 ^ 8 + x3) * 2 ^ 16) by lia.
+  rewrite (lor_mul_add (((x0 * 2 ^ 8 + x1) * 2 ^ 8 + x2) * 2 ^ 8 + x3) (x4 * 2 ^ 8) 16) by lia.
+  replace ((((x0 * 2 ^ 8 + x1) * 2 ^ 8 + x2) * 2 ^ 8 + x3) * 2 ^ 16 + x4 * 2 ^ 8) with (((((x0 * 2 ^ 8 + x1) * 2 ^ 8 + x2) * 2 ^ 8 + x3) * 2 ^ 8 + x4) * 2 ^ 8) by lia.
+  rewrite (lor_mul_add ((((x0 * 2 ^ 8 + x1) * 2 ^ 8 + x2) * 2 ^ 8 + x3) * 2 ^ 8 + x4) x5 8) by lia.
+  replace (((((x0 * 2 ^ 8 + x1) * 2 ^ 8 + x2) * 2 ^ 8 + x3) * 2 ^ 8 + x4) * 2 ^ 8 + x5)
+    with ((((((0 * 256 + x0) * 256 + x1) * 256 + x2) * 256 + x3) * 256 + x4) * 256 + x5) by lia.
+  set (n := (((((0 * 256 + x0) * 256 + x1) * 256 + x2) * 256 + x3) * 256 + x4) * 256 + x5).
+  assert (Hn : 0 <= n < 2 ^ 48) by (subst n; lia).
+  rewrite <- (Z.shiftl_mul_pow2 1 47) by lia.
+  rewrite (land_pow2_test n 47) by (change (47 + 1) with 48; lia).
+  change (48 - 1) with 47. destruct (n <? 2 ^ 47); reflexivity.
 Qed.
